@@ -388,7 +388,41 @@ class MaintenanceFinalized(Contract):
     ensures = {'fin.finalized_record_cannot_be_altered': lambda pre, post: MaintenanceFinalized._c(pre, post)}
 
 
-for _c in (GatewayRoundTrip, GatewayNothingSet, PathInfoRoundTrip, MaintenanceRoundTrip, MaintenanceFinalized):
+class MaintenanceCopyIndependent(Contract):
+    """copy() of a finalized record gives a record that can be edited, and editing it does not alter the finalized original
+    (copy-with-changes leaves the original untouched; a finalized record cannot be altered -- not through its copy either)"""
+    target = 'fim.slivers.maintenance_mode:MaintenanceInfo.copy'
+    extra_targets = ('fim.slivers.maintenance_mode:MaintenanceInfo.add', 'fim.slivers.maintenance_mode:MaintenanceInfo.rem')
+    props = ('C03',)
+    bounded = 'at most two entries'
+    max_paths = 40000
+
+    def inputs(self, g):
+        return [_mk_minfo(g, True), g.pick(['add', 'rem first entry'], 'edit made on the copy'), g.atom('new_name')], {}
+
+    def body(self, h, x, op, name):
+        c = h.call(MaintenanceInfo.copy, x)
+        n0 = list(keys(fld(x, '_nodes')))
+        if op == 'add' or not n0:
+            e = h.call(MaintenanceEntry, MaintenanceState.Maint)
+            st, _ = h.attempt(MaintenanceInfo.add, c, name, e)
+        else:
+            st, _ = h.attempt(MaintenanceInfo.rem, c, n0[0])
+        return (st, c)
+
+    @staticmethod
+    def _c(pre, post):
+        if not returned(post):
+            return False
+        st, c = post.result
+        n0, n1 = fld(pre.args[0], '_nodes'), fld(post.args[0], '_nodes')
+        same_nodes = len(keys(n0)) == len(keys(n1)) and And(*[eq(a, b) for a, b in zip(keys(n0), keys(n1))])
+        return And(st == 'ok', same_nodes, fld(post.args[0], '_lock') is True, not same_obj(fld(c, '_nodes'), n1))
+
+    ensures = {'copy.editable_and_original_untouched': lambda pre, post: MaintenanceCopyIndependent._c(pre, post)}
+
+
+for _c in (GatewayRoundTrip, GatewayNothingSet, PathInfoRoundTrip, MaintenanceRoundTrip, MaintenanceFinalized, MaintenanceCopyIndependent):
     CONTRACTS.append(_c)
 
 # Labels / Tags / JSON blob codecs are verified by the contracts they share with C16
